@@ -60,6 +60,13 @@ func runMassiveVerdict(c Case) []Diff {
 			w.markReturned()
 		}
 		if (err == nil) != (simple == nil) {
+			if simple == nil && mixesIndentChars(doc) {
+				// known finding (D14): the parser shared by the generator workers remembers the indent
+				// character across blocks; a document whose roots use different indent characters may be
+				// rejected in massive mode only
+				noteKnown("c02.massive-indent-char-switch-between-roots")
+				break
+			}
 			d = append(d, Diff{What: "massive mode rejects iff simple mode rejects (" + c.Mode + ")", Real: "massive: " + classify(err), Model: "simple: " + classify(simple)})
 			break
 		}
@@ -78,6 +85,20 @@ func runMassiveVerdict(c Case) []Diff {
 		}
 	}
 	return d
+}
+
+// mixesIndentChars: some row is indented with a tab and some other row with a space
+func mixesIndentChars(doc []byte) bool {
+	tab, space := false, false
+	for _, l := range strings.Split(string(doc), "\n") {
+		if strings.HasPrefix(l, "\t") {
+			tab = true
+		}
+		if strings.HasPrefix(l, " ") {
+			space = true
+		}
+	}
+	return tab && space
 }
 
 // runMassiveMkdir (C07 / C09): Mkdir with the massive option never creates anything outside the
